@@ -1787,8 +1787,8 @@ package hashgraph
 // between batches, every one of them goes through the normal insert-and-run-consensus path while the store is in
 // maintenance mode (no database write), reading stops at the first short batch, and the maintenance flag is put back
 // on every returning path. The database reads themselves (dbGetPeerSet, dbTopologicalEvents) are trusted; the
-// in-memory SetPeerSet of the genesis set is not verified (its effect on the store is assumed to be within the
-// Store view).
+// in-memory SetPeerSet of the genesis set has no contract and is expanded in place (panic-freedom of Bootstrap is
+// not claimed).
 //@ func (s *BadgerStore) dbGetPeerSet(round int) (*peers.PeerSet, error)
 //@   trusted Badger read + PeerSet.Unmarshal; errors are Badger's or the codec's
 //@   requires s != nil
@@ -1800,11 +1800,6 @@ package hashgraph
 //@   requires s != nil
 //@   modifies nothing
 //@   ensures[batch] ret1 == nil ==> len(ret0) <= count && (forall k int :: 0 <= k && k < len(ret0) ==> ret0[k] != nil && __fresh(ret0[k]) && len(ret0[k].Body.Parents) == 2)
-
-//@ func (s *InmemStore) SetPeerSet(round int, peerSet *peers.PeerSet) error
-//@   trusted not verified against Store.SetPeerSet (three attempts, see above); only its frame is used
-//@   requires s != nil && peerSet != nil
-//@   modifies G_pset(s), G_psetOK(s), G_psetFloor(s), G_rep(s), G_fault(s)
 
 //@ func (h *Hashgraph) Bootstrap() error
 //@   requires h != nil && h.PendingSignatures != nil && h.PendingSignatures.items != nil && h.MemoOK() && h.PendingRounds != nil && h.PendingRounds.wf()
